@@ -1074,6 +1074,9 @@ class Hadrons:
                 f.write(b"x")
         return models
 
+    def file_for(self, p, d, c, k=0):
+        return os.path.join(d, "%s.%d.h5" % (p["stem"], c))
+
     def _idl(self, call):
         if "idl" not in call:
             return None
@@ -1240,5 +1243,103 @@ class HadronsNpr(Hadrons):
         return {"extleg": "read_ExternalLeg_hd5", "bilinear": "read_Bilinear_hd5", "fourquark": "read_Fourquark_hd5"}[p["family"]]
 
 
-for _k in (Sfcf(), Hadrons(), HadronsNpr()):
+class HadronsDistillation(Hadrons):
+    """Hadrons DistillationContraction output: one directory data.<cfg> per configuration holding one hdf5 file per
+    operator combination; the reader averages every diagram over the source times after rolling them to zero."""
+    name = "hadrons_dist"
+    DIAGRAMS = ["direct", "box", "cross", "triangle"]
+
+    def gen(self, rng, small=False):
+        p = Hadrons.gen(self, rng, small)
+        nst = rng.choice([1, 1, 2])
+        ops = ["Identity", "Gamma5", "GammaX"]
+        stems = []
+        for i in range(nst):
+            stems.append({"stem": rng.choice(["c2pt", "dist.pi", "kk"]) + str(i),
+                          "inputs": [[rng.choice(ops), str(rng.randint(0, 9)), "p%d" % rng.randint(0, 2), "n%d" % (10 * i + j)] for j in range(rng.randint(1, 3))]})
+        p.update({"kind": "hadrons_dist", "Nt": rng.randint(2, 6), "stems": stems, "diagrams_in_file": rng.sample(self.DIAGRAMS, rng.randint(1, 4))})
+        for k in ("T", "gammas", "stem"):
+            p.pop(k)
+        p["calls"] = [self.gen_call(rng, p) for _ in range(rng.randint(1, 2))]
+        return p
+
+    def gen_call(self, rng, p):
+        c = Hadrons.gen_call(self, rng, dict(p, gammas=[0]))
+        for k in ("k", "by_gammas"):
+            c.pop(k)
+        c["api"] = "distillation"
+        c["diagrams"] = rng.choice([None, None, sorted(rng.sample(p["diagrams_in_file"], rng.randint(1, len(p["diagrams_in_file"]))))])
+        if c["diagrams"] is None and "direct" not in p["diagrams_in_file"]:
+            c["diagrams"] = [p["diagrams_in_file"][0]]
+        return c
+
+    def nvals(self, p):
+        return len(p["cfgs"]) * p["Nt"]
+
+    def write_all(self, p, d, cfgs=None):
+        models = {}
+        os.makedirs(d, exist_ok=True)
+        for c in (p["cfgs"] if cfgs is None else cfgs):
+            models[c] = formats.write_distillation(p, c, d)
+        if p.get("distractors"):
+            with open(os.path.join(d, "notes.txt"), "wb") as f:
+                f.write(b"x")
+            os.makedirs(os.path.join(d, "database"), exist_ok=True)
+        return models
+
+    def expect(self, p, models, nrecs, call, present=None):
+        cf = [c for c in p["cfgs"] if present is None or c in present]
+        idl = self._idl(call)
+        if idl is not None:
+            if sorted(set(idl) - set(cf)):
+                return None
+            cf = [c for c in cf if c in set(idl)]
+        if len(cf) < 5:
+            return None
+        if len(set(np.diff(cf))) != 1 and idl is None:
+            return None
+        Nt = p["Nt"]
+        out = {}
+        for ident in sorted(models[cf[0]]):
+            idstr = str(ident)
+            for dia in (call.get("diagrams") or ["direct"]):
+                part = 1 if (dia == "triangle" and "Identity" not in idstr) else 0
+                for t in range(Nt):
+                    vals = []
+                    for c in cf:
+                        rows = models[c][ident][dia]
+                        # source time x0 rolled to zero: entry (t + x0) mod Nt of row x0, averaged over x0
+                        vals.append(sum(rows[x0][(t + x0) % Nt][part] for x0 in range(Nt)) / Nt)
+                    out["%s/%s/t%d" % (idstr, dia, t)] = ospec_from([p["ens"]], [cf], [vals])
+        return out
+
+    def invoke(self, p, d, call):
+        import pyerrors as pe
+        idl = None
+        if "idl" in call:
+            idl = range(call["idl"][1], call["idl"][2], call["idl"][3]) if call["idl"][0] == "range" else list(call["idl"])
+        if call.get("diagrams"):
+            res = pe.input.hadrons.read_DistillationContraction_hd5(d, p["ens"], diagrams=list(call["diagrams"]), idl=idl)
+        else:
+            res = pe.input.hadrons.read_DistillationContraction_hd5(d, p["ens"], idl=idl)
+        out = {}
+        for ident, per in res.items():
+            for dia, corr in per.items():
+                if corr.T != p["Nt"]:
+                    out["T_mismatch_%s_%s_%d" % (ident, dia, corr.T)] = None
+                    continue
+                if corr.tag != ident:
+                    out["tag_mismatch_%s_%r" % (ident, corr.tag)] = None
+                for t in range(corr.T):
+                    out["%s/%s/t%d" % (ident, dia, t)] = corr.content[t][0]
+        return out
+
+    def file_for(self, p, d, c, k=0):
+        return os.path.join(d, "data.%d" % c, "%s.%d.h5" % (p["stems"][k % len(p["stems"])]["stem"], c))
+
+    def component(self, p, call):
+        return "read_DistillationContraction_hd5"
+
+
+for _k in (Sfcf(), Hadrons(), HadronsNpr(), HadronsDistillation()):
     KINDS[_k.name] = _k
